@@ -16,7 +16,7 @@ confirm)
   CARGO_TARGET_DIR=/tmp/confirm_target cargo test --offline --test demo_x 2>&1 | grep -E "^test result|panicked|error(\[|:)" | head -5
   git apply "$d/patch.diff" || { echo "PATCH DOES NOT APPLY"; exit 1; }
   echo "== library tests with the patch (must pass: 96 + 2)"
-  CARGO_TARGET_DIR=/tmp/confirm_target cargo test --offline --lib --doc 2>&1 | grep -E "^test result|error(\[|:)|warning: unused" | head -5
+  CARGO_TARGET_DIR=/tmp/confirm_target cargo test --offline --lib 2>&1 | grep -E "^test result|error(\[|:)|warning: unused" | head -5
   CARGO_TARGET_DIR=/tmp/confirm_target cargo test --offline --doc 2>&1 | grep -E "^test result" | head -2
   echo "== demo with the patch (must fail)"
   CARGO_TARGET_DIR=/tmp/confirm_target cargo test --offline --test demo_x 2>&1 | grep -E "^test result|panicked" | head -5
@@ -37,5 +37,24 @@ run)
   git -C /repo status --porcelain
   rm -rf /verif/evidence; mv /tmp/evidence_keep /verif/evidence
   (cd /verif/harness && cargo build --release --offline >/dev/null 2>&1)
+  ;;
+scratch)
+  # tools/mutant.sh scratch <name> <patch.diff> <ID>...   screening without touching /repo:
+  # scratch worktree + copy of the harness pointed at it + copy of replays/known findings
+  name="$1"; patch="$2"; shift 2
+  base=/tmp/ms/$name; rm -rf $base; mkdir -p $base/root
+  git -C /repo worktree prune
+  git -C /repo worktree add -q --detach $base/repo HEAD || exit 2
+  (cd $base/repo && git apply "$patch") || { echo "PATCH DOES NOT APPLY"; exit 1; }
+  mkdir -p $base/harness && cp -r /verif/harness/src /verif/harness/Cargo.toml /verif/harness/Cargo.lock /verif/harness/.cargo $base/harness/
+  sed -i "s#path = \"/repo\"#path = \"$base/repo\"#" $base/harness/Cargo.toml
+  cp -r /verif/replays /verif/known_findings.json $base/root/
+  (cd $base/harness && CARGO_TARGET_DIR=$base/target cargo build --release --offline >$base/build.log 2>&1) || { tail -5 $base/build.log; echo "BUILD FAILED"; exit 2; }
+  for id in "$@"; do
+    out=$(cd $base/root && VERIF_ROOT=$base/root ${VERIF_SEED:+VERIF_SEED=$VERIF_SEED} $base/target/release/rv check $id quick 2>&1); code=$?
+    echo "[$name $id] exit=$code $(echo "$out" | grep -E "^$id " | tail -1)"
+    echo "$out" | grep -E "failure:|INCONCLUSIVE" | head -2 | cut -c1-300
+  done
+  git -C /repo worktree remove --force $base/repo; rm -rf $base
   ;;
 esac
